@@ -7,20 +7,30 @@ usage: benign_agents.py [area ...]"""
 import glob,json,os,re,shutil,subprocess,sys
 ENV=dict(os.environ,GOFLAGS='-mod=mod',GOPROXY='off',GOSUMDB='off',GOTOOLCHAIN='local'); ENV.pop('GOWORK',None)
 SRC=os.environ.get('BENIGN_SRC','/tmp/benign')
+import tempfile
+BIN=os.environ.get('GALAXYCHECK','/verif/bin/galaxycheck')
 for d in sorted(glob.glob(SRC+'/*/*/patch.diff')):
     d=os.path.dirname(d); area,n=d.split('/')[-2:]
     if sys.argv[1:] and area not in sys.argv[1:]: continue
-    if subprocess.run(['git','-C','/repo','status','--porcelain'],capture_output=True,text=True).stdout.strip(): sys.exit('/repo not clean')
-    if subprocess.run(['git','-C','/repo','apply',d+'/patch.diff']).returncode!=0:
-        print(area,n,'PATCH DOES NOT APPLY'); continue
+    # in memory: the patched files go into a packages overlay, /repo is not touched
+    tmp=tempfile.mkdtemp(dir='/dev/shm')
     try:
-        b=subprocess.run('go build ./...',shell=True,cwd='/repo',env=ENV,capture_output=True,text=True)
-        o=subprocess.run(['/verif/bin/galaxycheck','-prop','all','-no-evidence'],capture_output=True,text=True).stdout if b.returncode==0 else 'BUILD FAILED '+b.stderr[-300:]
+        files=[l[6:].strip() for l in open(d+'/patch.diff') if l.startswith('+++ b/')]
+        for f in files:
+            os.makedirs(os.path.dirname(os.path.join(tmp,f)),exist_ok=True)
+            shutil.copy(os.path.join('/repo',f),os.path.join(tmp,f))
+        pr=subprocess.run(['patch','-p1','-s','-d',tmp,'-i',d+'/patch.diff'],capture_output=True,text=True)
+        if pr.returncode!=0:
+            print(area,n,'PATCH DOES NOT APPLY'); continue
+        ov={os.path.join('/repo',f):open(os.path.join(tmp,f)).read() for f in files}
     finally:
-        subprocess.run(['git','-C','/repo','checkout','--','.'])
-    alarms=[l[:260] for l in o.splitlines() if '[violated]' in l or '[undecided]' in l or 'BUILD FAILED' in l or 'cannot' in l]
-    out='/verif/benign_patches/%s/%s'%(area,n)
-    meta={'id':area+'/'+n,'alarms':alarms,'accepted':not alarms}
+        shutil.rmtree(tmp,ignore_errors=True)
+    fd,path=tempfile.mkstemp(suffix='.json',dir='/dev/shm'); os.write(fd,json.dumps(ov).encode()); os.close(fd)
+    o=subprocess.run([BIN,'-prop','all','-no-evidence','-overlay',path],capture_output=True,text=True).stdout; os.unlink(path)
+    alarms=[l[:260] for l in o.splitlines() if '[violated]' in l or '[undecided]' in l or 'cannot' in l]
+    tag=os.environ.get('BENIGN_TAG','')
+    out='/verif/benign_patches/%s%s/%s'%(area,tag,n)
+    meta={'id':area+tag+'/'+n,'alarms':alarms,'accepted':not alarms}
     if not alarms:
         os.makedirs(out,exist_ok=True)
         shutil.copy(d+'/patch.diff',out+'/patch.diff')
